@@ -39,11 +39,14 @@ def expected(n, p, cls, ok, ko):
     return out
 
 
-def parse_html(s):
+def parse_html(s, element="span"):
     out = []
     stack = [None]
     i = 0
-    for m in TAG.finditer(s):
+    tag = TAG if element == "span" else re.compile(r'<%s class="(\w+)">|</%s>' % (element, element))
+    if element != "span" and ("<span" in s or "</span" in s):
+        return None          # an element of another marker leaked in
+    for m in tag.finditer(s):
         out.extend((ch, stack[-1]) for ch in s[i:m.start()])
         i = m.end()
         if m.group(1):
@@ -91,6 +94,15 @@ def work(item):
             except Exception as e:  # noqa: BLE001
                 fails.append({"input": q, "ok": sorted(ok), "ko": sorted(ko), "parcimonious": parc, "observation": "raised %r" % (e,)})
                 continue
+            # a second marker with the same class names but another element, used in the same process (markers share nothing)
+            try:
+                html_em = HTMLMarker(element="em")(t, ok, ko, parcimonious=parc)
+                got_em = parse_html(html_em, "em")
+                if got_em is None or got_em != exp:
+                    fails.append({"input": q, "ok": sorted(ok), "ko": sorted(ko), "parcimonious": parc, "signature": "second-marker",
+                                  "observation": "a marker with element 'em' used after the default one renders %r" % html_em})
+            except Exception as e:  # noqa: BLE001
+                fails.append({"input": q, "ok": sorted(ok), "ko": sorted(ko), "parcimonious": parc, "observation": "second marker raised %r" % (e,)})
             got = parse_html(html)
             if got is None:
                 fails.append({"input": q, "ok": sorted(ok), "ko": sorted(ko), "parcimonious": parc, "observation": "not properly nested: %r" % html})
